@@ -48,7 +48,7 @@ def extra_result_table(tier, seed):
 def extra_join_probe(tier, seed):
     """C03 (ask_join clause): every case the model's ask_join distinguishes, on the real crate."""
     bins = vlib.build_harness((), bins=("director", "join_probe"))
-    real = probe([bins["join_probe"]], 300).strip().splitlines()
+    real = probe([bins["join_probe"]], 120).strip().splitlines()
     model = vlib.sh([vlib.DRIVER, "--join-table"], check=True).stdout.strip().splitlines()
     viol = []
     # the probe runs some cases several times under different fates of the actor after the reply
@@ -76,7 +76,7 @@ def extra_dd_probe(tier, seed):
     for.  Oracle: no residue (graph empty once no ask is in flight), the peer's later ask towards the
     actor does not trip the detector, the mutex is not poisoned."""
     bins = vlib.build_harness(("dd",), bins=("director", "dd_probe"))
-    real = probe([bins["dd_probe"]], 300).strip().splitlines()
+    real = probe([bins["dd_probe"]], 120).strip().splitlines()
     viol = []
     if real != DD_PROBE_EXPECTED:
         diff = [(r, e) for r, e in zip(real, DD_PROBE_EXPECTED) if r != e]
@@ -91,7 +91,7 @@ def extra_lazy_probe(tier, seed):
     poll, so an unpolled future that is dropped delivers nothing and a deferred one is ordered by its
     first poll."""
     bins = vlib.build_harness((), bins=("director", "lazy_probe"))
-    real = probe([bins["lazy_probe"]], 300).strip().splitlines()
+    real = probe([bins["lazy_probe"]], 120).strip().splitlines()
     want = "unpolled=[] deferred=[2, 1] raced=[8] oks=111 late=1 overdue=1"
     viol = []
     bad = [l for l in real if l.split(" ", 1)[1] != want]
@@ -240,7 +240,7 @@ def extra_cancel_probe(tier, seed):
     across other steps (KGiveBack / late KFail of Model/Chan.v).  The actor must end whatever the
     waiting sender does, the cancelled message is never handled, a freed slot is usable at once."""
     bins = vlib.build_harness((), bins=("director", "cancel_probe"))
-    real = probe([bins["cancel_probe"]], 300).strip().splitlines()
+    real = probe([bins["cancel_probe"]], 90).strip().splitlines()
     viol = []
     if real != CANCEL_PROBE_EXPECTED:
         diff = [(r, e) for r, e in zip(real, CANCEL_PROBE_EXPECTED) if r != e]
